@@ -559,7 +559,17 @@ func (m *NodeManager) synchronizeBlocks(ctx context.Context, interrupt <-chan in
 		// Get previous header hash
 		previousHash, _ := m.headers.PreviousHash(hash)
 		if previousHash == nil {
-			return nil // headers must have reorged
+			// Either the headers reorged, or the previous header is older than what is kept in
+			// memory. Older headers of the most proof of work chain are still available by height.
+			heightHash, err := m.headers.Hash(ctx, height)
+			if err != nil || heightHash == nil || !heightHash.Equal(&hash) {
+				return nil // headers must have reorged
+			}
+
+			previousHash, err = m.headers.Hash(ctx, height-1)
+			if err != nil || previousHash == nil {
+				return nil
+			}
 		}
 
 		// Check if block has already been processed
